@@ -208,12 +208,21 @@ func serializeDatetimeFromUnixNano(buf *bytes.Buffer, t int64) {
 
 func serializeString(buf *bytes.Buffer, s string) {
 	buf.Write([]byte{91, 83, 93})
-	buf.WriteString(strings.ToUpper(option.TrimSpace(s)))
+	buf.WriteString(escapeSerializedString(strings.ToUpper(option.TrimSpace(s))))
 }
 
 func serializeCaseSensitiveString(buf *bytes.Buffer, s string) {
 	buf.Write([]byte{91, 83, 93})
-	buf.WriteString(option.TrimSpace(s))
+	buf.WriteString(escapeSerializedString(option.TrimSpace(s)))
+}
+
+// escapeSerializedString keeps the key separator ':' out of serialized text, so that the keys of
+// different rows cannot coincide.
+func escapeSerializedString(s string) string {
+	if !strings.ContainsAny(s, ":\\") {
+		return s
+	}
+	return strings.NewReplacer("\\", "\\\\", ":", "\\:").Replace(s)
 }
 
 func serializeBoolean(buf *bytes.Buffer, b bool) {
